@@ -2150,6 +2150,12 @@ func (c *Conn) handleChangeCipherSpecRecord(
 	bufferLease *readBufferLease,
 ) bool {
 	common := dtlsstate.CommonState(c.state)
+	if prepared.header.Epoch != 0 {
+		// There is no renegotiation: the only ChangeCipherSpec of a connection travels in
+		// epoch 0. The cipher suites hand a later one through without authenticating it, so
+		// it must not move the remote epoch or the anti-replay window.
+		return false
+	}
 	if !c.hasInboundRecordProtection() {
 		if bufferLease != nil {
 			if ok := bufferLease.enqueue(addrPkt{rAddr: rAddr, data: prepared.buf}); ok {
@@ -2180,9 +2186,12 @@ func (c *Conn) handleApplicationDataRecord(
 	prepared incomingPacketState,
 ) (bool, packetOutcome, error) {
 	if prepared.header.Epoch == 0 {
-		return false, packetOutcome{
-			responseAlert: &alert.Alert{Level: alert.Fatal, Description: alert.UnexpectedMessage},
-		}, dtlserrors.ErrApplicationDataEpochZero
+		// Unprotected application data is never delivered. It cannot come from the peer
+		// (which sends application data under its keys only), so it is discarded silently
+		// rather than answered with a fatal alert that would end the association.
+		c.log.Debugf("%v", dtlserrors.ErrApplicationDataEpochZero)
+
+		return false, packetOutcome{}, nil
 	}
 
 	isLatestSeqNum := prepared.markPacketAsValid()
@@ -2209,12 +2218,22 @@ func (c *Conn) handleRecordContent(
 ) (bool, packetOutcome, error) {
 	switch content := content.(type) {
 	case *protocol.ACK:
+		if prepared.header.Epoch == 0 || !dtlsstate.CommonState(c.state).LocalVersion.Equal(protocol.Version1_3) {
+			// ACK records exist in DTLS 1.3 only and are always protected there: anything
+			// else is not from the peer and must not wake the handshake state machine.
+			return false, packetOutcome{}, nil
+		}
 		isLatestSeqNum := prepared.markPacketAsValid()
 
 		return isLatestSeqNum, packetOutcome{
 			receivedACK: &protocol.ACK{Records: append([]protocol.RecordNumber(nil), content.Records...)},
 		}, nil
 	case *alert.Alert:
+		if prepared.header.Epoch == 0 && c.isHandshakeCompletedSuccessfully() {
+			// Once the handshake has completed the peer sends its alerts protected: an
+			// unprotected one can come from anybody and must not close the connection.
+			return false, packetOutcome{}, nil
+		}
 		c.log.Tracef("%s: <- %s", srvCliStr(dtlsstate.CommonState(c.state).IsClient), content.String())
 		if vtrace.Enabled {
 			vtrace.Emit(c.handshakeConfig, "alert.in", "client", dtlsstate.CommonState(c.state).IsClient,
